@@ -39,8 +39,19 @@ structure EnumCls where
   members : List (Nat × String)
   deriving DecidableEq, Repr
 
+/-- a class whose instances carry named fields: a `typing.NamedTuple` class (`isTuple`: the instances are tuples of the
+field values) or a plain class whose instances have exactly the attributes `fields`; `bases`: the `cid`s of the registered
+proper base classes (for `isinstance`) -/
+structure Cls where
+  cid : Nat
+  fields : List String
+  isTuple : Bool
+  bases : List Nat
+  deriving DecidableEq, Repr
+
 /-- the universal value.  `dict ks vs`: keys and values in insertion order (same length, keys pairwise different);
-`bytesIO data pos`: an `io.BytesIO` object; `enum cls v`: the member (or pseudo-member for an undefined value) `cls(v)` -/
+`bytesIO data pos`: an `io.BytesIO` object; `enum cls v`: the member (or pseudo-member for an undefined value) `cls(v)`;
+`inst cls vals`: an instance of a class with named fields, `vals` in the order of `cls.fields` -/
 inductive V
   | none
   | bool (b : Bool)
@@ -52,6 +63,7 @@ inductive V
   | dict (ks : List V) (vs : List V)
   | bytesIO (data : Bytes) (pos : Nat)
   | enum (cls : EnumCls) (value : Int)
+  | inst (cls : Cls) (vals : List V)
   deriving Repr
 
 /-! structural equality of values (`DecidableEq V`; Lean cannot derive it for a nested inductive type) -/
@@ -67,6 +79,7 @@ def V.beq : V → V → Bool
   | .dict a c, .dict b d => V.beqL a b && V.beqL c d
   | .bytesIO a c, .bytesIO b d => a == b && c == d
   | .enum a c, .enum b d => a == b && c == d
+  | .inst a c, .inst b d => a == b && V.beqL c d
   | _, _ => false
 termination_by structural x => x
 def V.beqL : List V → List V → Bool
@@ -94,6 +107,9 @@ theorem V.eq_of_beq : ∀ (a b : V), V.beq a b = true → a = b
     rw [V.eq_of_beqL ks _ h.1, V.eq_of_beqL vs _ h.2]
   | .bytesIO _ _, b, h => by cases b <;> simp_all [V.beq]
   | .enum _ _, b, h => by cases b <;> simp_all [V.beq]
+  | .inst c xs, b, h => by
+    cases b <;> simp only [V.beq, Bool.false_eq_true, Bool.and_eq_true, beq_iff_eq] at h
+    rw [h.1, V.eq_of_beqL xs _ h.2]
 termination_by structural x => x
 theorem V.eq_of_beqL : ∀ (a b : List V), V.beqL a b = true → a = b
   | [], b, h => by cases b <;> simp_all [V.beqL]
@@ -118,6 +134,7 @@ theorem V.beq_self : ∀ (a : V), V.beq a a = true
   | .dict ks vs => by simp only [V.beq, Bool.and_eq_true]; exact ⟨V.beqL_self ks, V.beqL_self vs⟩
   | .bytesIO _ _ => by simp [V.beq]
   | .enum _ _ => by simp [V.beq]
+  | .inst _ xs => by simp only [V.beq, Bool.and_eq_true, beq_self_eq_true, true_and]; exact V.beqL_self xs
 termination_by structural x => x
 theorem V.beqL_self : ∀ (a : List V), V.beqL a a = true
   | [] => by simp [V.beqL]
@@ -142,6 +159,16 @@ def asInt : V → Option Int
   | .enum _ v => some v
   | _ => none
 
+/-- the value of the field `a` of an instance (`fields` and `vals` side by side) -/
+def lookupField (a : String) : List String → List V → Option V
+  | f :: fs, v :: vs => if f == a then some v else lookupField a fs vs
+  | _, _ => none
+
+/-- the values with the field `a` replaced (`none`: no such field) -/
+def setField (a : String) (x : V) : List String → List V → Option (List V)
+  | f :: fs, v :: vs => if f == a then some (x :: vs) else (setField a x fs vs).map (v :: ·)
+  | _, _ => none
+
 /-! ### truth value, `==`, `is None`, ordering -/
 
 /-- `bool(x)` -/
@@ -156,6 +183,7 @@ def truthy : V → Bool
   | .dict ks _ => !ks.isEmpty
   | .bytesIO _ _ => true
   | .enum _ v => v != 0
+  | .inst c vs => !c.isTuple || !vs.isEmpty
 
 /-- `x is None` -/
 def isNone : V → Bool
@@ -166,8 +194,9 @@ mutual
 /-- `a == b`: int-like objects compare by value, except that members of two *different* cstruct enum classes are never
 equal (`Enum.__eq__` of dissect.cstruct); sequences element-wise; two `BytesIO` objects are compared by state (the
 translator never lets one object have two names, so this only ever compares an object with itself).
+A NamedTuple instance is a tuple: it is compared element-wise with tuples and with NamedTuple instances of any class.
 Not modelled exactly: two dicts are equal here when they have equal items in the same insertion order (CPython ignores
-the order). -/
+the order); two instances of a plain class are compared by state (CPython: by identity). -/
 def eq : V → V → Bool
   | .none, .none => true
   | .bool a, .bool b => a == b
@@ -185,6 +214,9 @@ def eq : V → V → Bool
   | .tuple a, .tuple b => eqL a b
   | .dict ks vs, .dict ks' vs' => eqL ks ks' && eqL vs vs'
   | .bytesIO a p, .bytesIO b q => a == b && p == q
+  | .tuple a, .inst c b => c.isTuple && eqL a b
+  | .inst c a, .tuple b => c.isTuple && eqL a b
+  | .inst c a, .inst d b => (if c.isTuple then d.isTuple else !d.isTuple && c.cid == d.cid) && eqL a b
   | _, _ => false
 termination_by structural x => x
 def eqL : List V → List V → Bool
@@ -295,14 +327,16 @@ def len : V → Py V
   | .list xs => .ok (.int xs.length)
   | .tuple xs => .ok (.int xs.length)
   | .dict ks _ => .ok (.int ks.length)
+  | .inst c vs => if c.isTuple then .ok (.int vs.length) else .error .typeError
   | _ => .error .typeError
 
 mutual
-/-- `hash(x)` succeeds: no `list` / `dict` inside -/
+/-- `hash(x)` succeeds: no `list` / `dict` inside (an instance of a plain class hashes by identity) -/
 def hashable : V → Bool
   | .list _ => false
   | .dict _ _ => false
   | .tuple xs => hashableL xs
+  | .inst c xs => !c.isTuple || hashableL xs
   | _ => true
 termination_by structural x => x
 def hashableL : List V → Bool
@@ -362,6 +396,7 @@ def contains (c x : V) : Py Bool :=
   match c with
   | .list xs => .ok (xs.any (eq x))
   | .tuple xs => .ok (xs.any (eq x))
+  | .inst c xs => if c.isTuple then .ok (xs.any (eq x)) else .error .typeError
   | .dict ks vs => if hashable x then .ok (findKey x ks vs).isSome else .error .typeError
   | .bytes b =>
     match x with
@@ -393,6 +428,12 @@ def getItem (x i : V) : Py V :=
   | .tuple xs => match asInt i with
     | some n => (PyRt.normIdx xs.length n).map fun j => xs.getD j .none
     | none => .error .typeError
+  | .inst c xs =>
+    if c.isTuple then
+      match asInt i with
+      | some n => (PyRt.normIdx xs.length n).map fun j => xs.getD j .none
+      | none => .error .typeError
+    else .error .typeError
   | _ => .error .typeError
 
 /-- a slice bound: `None` or int-like -/
@@ -402,7 +443,7 @@ def bound : V → Py (Option Int)
     | some n => .ok (some n)
     | none => .error .typeError
 
-/-- `x[lo:hi]` for a sequence (bounds `None` or int-like); a dict looks the `slice` object up as a key (hashable since
+/-- `x[lo:hi]` for a sequence (bounds `None` or int-like; a slice of a NamedTuple instance is a plain tuple); a dict looks the `slice` object up as a key (hashable since
 Python 3.12, never present: KeyError) -/
 def slice (x lo hi : V) : Py V :=
   match x with
@@ -415,6 +456,7 @@ def slice (x lo hi : V) : Py V :=
     | .str d => pure (.str (PyRt.slice d a b))
     | .list d => pure (.list (PyRt.slice d a b))
     | .tuple d => pure (.tuple (PyRt.slice d a b))
+    | .inst c d => if c.isTuple then pure (.tuple (PyRt.slice d a b)) else throw .typeError
     | _ => throw .typeError
 
 /-- the items an unpacking assignment iterates over -/
@@ -424,6 +466,7 @@ def iterList : V → Py (List V)
   | .bytes b => .ok (b.map fun x => .int x.toNat)
   | .str t => .ok (t.map fun c => .str [c])
   | .dict ks _ => .ok ks
+  | .inst c xs => if c.isTuple then .ok xs else .error .typeError
   | _ => .error .typeError
 
 /-- `a, b = x` -/
@@ -495,8 +538,10 @@ def enumMember (cls : EnumCls) (name : String) : Py V :=
   | some m => .ok (.enum cls m.1)
   | none => .error .attributeError
 
-/-- `x.name` / `x.value` (the translator accepts these two attribute names only): of an enum member, the name (`None`
-for an undefined value) and the integer; every other kind of object here has neither attribute -/
+/-- `x.name` / `x.value` of an enum member: the name (`None` for an undefined value) and the integer; `x.<field>` of an
+instance of a class with named fields (the translator emits this for attribute names without a leading underscore only).
+Every other kind of object here has none of these attributes.  Not modelled (AttributeError): methods read as values
+(`t.count`, `t.index` of a NamedTuple instance). -/
 def getAttr (x : V) (attr : String) : Py V :=
   match x with
   | .enum cls v =>
@@ -507,6 +552,10 @@ def getAttr (x : V) (attr : String) : Py V :=
         | none => .none)
     else if attr == "value" then .ok (.int v)
     else .error .attributeError
+  | .inst cls vals =>
+    match lookupField attr cls.fields vals with
+    | some v => .ok v
+    | none => .error .attributeError
   | _ => .error .attributeError
 
 /-! ### bytes / str methods -/
@@ -650,5 +699,354 @@ def whileFuel {σ : Type} : Nat → (σ → Py (Ctl × σ)) → σ → Py σ
     | .error e => .error e
     | .ok (.brk, st') => .ok st'
     | .ok (.cont, st') => whileFuel n body st'
+
+/-! ### additions for c2.py (`parse_raw_http`, `HttpDataTransform`): `for`, item assignment, more `bytes` / `str` methods,
+`int()`, `repr`, codecs, classes with named fields -/
+
+/-- `for x in items: body` — the body answers `brk` (a `break`) or `cont` (end of the body / `continue`) together with the
+new values of the loop variables; `items` is the snapshot `iterList` took when the loop started (the translator rejects a
+loop whose body could change the object it iterates over) -/
+def forList {ε σ : Type} : List V → (V → σ → Except ε (Ctl × σ)) → σ → Except ε σ
+  | [], _, st => .ok st
+  | x :: xs, body, st =>
+    match body x st with
+    | .error e => .error e
+    | .ok (.brk, st') => .ok st'
+    | .ok (.cont, st') => forList xs body st'
+
+/-- exceptions of a function that contains `assert`: `PyExc` plus AssertionError -/
+inductive ExcA
+  | py (e : PyExc)
+  | assertion
+  deriving DecidableEq, Repr
+
+/-- the monad of the translated functions that contain `assert`; every operation of this file is lifted into it -/
+abbrev PyA (α : Type) := Except ExcA α
+
+def liftA {α : Type} : Py α → PyA α
+  | .ok a => .ok a
+  | .error e => .error (.py e)
+
+instance : MonadLift Py PyA := ⟨liftA⟩
+
+/-- the call counter of a `stream` function (`random.getrandbits`) after one more call -/
+def next : V → V
+  | .int n => .int (n + 1)
+  | v => v
+
+/-- `d[k] = v`: the changed object.  A dict keeps the position of a key that is present; a list index is normalised like
+`xs[i]` (IndexError); every other kind of object does not support item assignment (TypeError) -/
+def setItem (d k v : V) : Py V :=
+  match d with
+  | .dict ks vs =>
+    if hashable k then
+      let r := dictInsert (ks, vs) k v
+      .ok (.dict r.1 r.2)
+    else .error .typeError
+  | .list xs =>
+    match asInt k with
+    | some n => (PyRt.normIdx xs.length n).map fun j => .list (xs.set j v)
+    | none => .error .typeError
+  | _ => .error .typeError
+
+/-- `list(x)` -/
+def listOf (x : V) : Py V := (iterList x).map .list
+
+/-- `x[::-1]` (the translator accepts this one extended slice only): a reversed copy of a sequence (a NamedTuple instance
+gives a plain tuple); a dict looks the `slice` object up as a key (KeyError) -/
+def sliceRev : V → Py V
+  | .bytes d => .ok (.bytes d.reverse)
+  | .str d => .ok (.str d.reverse)
+  | .list d => .ok (.list d.reverse)
+  | .tuple d => .ok (.tuple d.reverse)
+  | .inst c d => if c.isTuple then .ok (.tuple d.reverse) else .error .typeError
+  | .dict _ _ => .error .keyError
+  | _ => .error .typeError
+
+/-- `xs.insert(i, x)`: the new list (the index is clamped like a slice bound, never an IndexError) -/
+def insert (xs i x : V) : Py V :=
+  match xs with
+  | .list l =>
+    match asInt i with
+    | some n =>
+      let j := PyRt.clampIdx l.length n
+      .ok (.list (l.take j ++ x :: l.drop j))
+    | none => .error .typeError
+  | _ => .error .attributeError
+
+/-! #### `split`, `upper`, `lower`, `startswith` -/
+
+/-- `s.split()`: runs of whitespace separate, no empty items -/
+def splitWsGo {α : Type} (sp : α → Bool) : List α → List α → List (List α)
+  | [], cur => if cur.isEmpty then [] else [cur]
+  | b :: rest, cur =>
+    if sp b then (if cur.isEmpty then splitWsGo sp rest [] else cur :: splitWsGo sp rest [])
+    else splitWsGo sp rest (cur ++ [b])
+
+/-- `s.split(sep)` for a non-empty `sep`: left to right, non-overlapping; `skip` = how many items of the occurrence of `sep`
+that was just recognised are still to be passed over -/
+def splitSepGo {α : Type} [BEq α] (sep : List α) : List α → Nat → List α → List (List α)
+  | [], _, cur => [cur]
+  | _ :: xs, skip + 1, cur => splitSepGo sep xs skip cur
+  | x :: xs, 0, cur =>
+    if sep.isPrefixOf (x :: xs) then cur :: splitSepGo sep xs (sep.length - 1) []
+    else splitSepGo sep xs 0 (cur ++ [x])
+
+/-- the whitespace of `str.split()` / `str.rstrip()` as far as it is modelled: ASCII whitespace, U+001C..U+001F, U+0085, U+00A0 -/
+def isSpaceU (c : Nat) : Bool := isSpace c || (28 ≤ c && c ≤ 31) || c == 133 || c == 160
+
+/-- `x.split(sep)` (`sep=None`: whitespace; an empty separator is a ValueError); a receiver without that method is an
+AttributeError.  Not modelled exactly: `str.split(None)` knows the whitespace `isSpaceU` only. -/
+def split (x sep : V) : Py V :=
+  match x with
+  | .bytes b =>
+    match sep with
+    | .none => .ok (.list ((splitWsGo (fun c => isSpace c.toNat) b []).map .bytes))
+    | .bytes s => if s.isEmpty then .error .valueError else .ok (.list ((splitSepGo s b 0 []).map .bytes))
+    | _ => .error .typeError
+  | .str t =>
+    match sep with
+    | .none => .ok (.list ((splitWsGo isSpaceU t []).map .str))
+    | .str s => if s.isEmpty then .error .valueError else .ok (.list ((splitSepGo s t 0 []).map .str))
+    | _ => .error .typeError
+  | _ => .error .attributeError
+
+def upByte (b : UInt8) : UInt8 := if 97 ≤ b ∧ b ≤ 122 then b - 32 else b
+def lowByte (b : UInt8) : UInt8 := if 65 ≤ b ∧ b ≤ 90 then b + 32 else b
+def upCp (c : Nat) : Nat := if 97 ≤ c ∧ c ≤ 122 then c - 32 else c
+def lowCp (c : Nat) : Nat := if 65 ≤ c ∧ c ≤ 90 then c + 32 else c
+
+/-- `x.upper()`: `bytes` (ASCII letters only, by definition) and ASCII `str`.  Not modelled (TypeError): a `str` with a
+code point above U+007F (CPython applies the Unicode case mapping). -/
+def upper : V → Py V
+  | .bytes b => .ok (.bytes (b.map upByte))
+  | .str t => if t.all (· < 128) then .ok (.str (t.map upCp)) else .error .typeError
+  | _ => .error .attributeError
+
+/-- `x.lower()`; as `upper` -/
+def lower : V → Py V
+  | .bytes b => .ok (.bytes (b.map lowByte))
+  | .str t => if t.all (· < 128) then .ok (.str (t.map lowCp)) else .error .typeError
+  | _ => .error .attributeError
+
+/-- `x.startswith(prefix)`.  Not modelled (TypeError; CPython accepts it): a tuple of prefixes. -/
+def startswith (x pre : V) : Py V :=
+  match x with
+  | .bytes b =>
+    match pre with
+    | .bytes p => .ok (.bool (p.isPrefixOf b))
+    | _ => .error .typeError
+  | .str t =>
+    match pre with
+    | .str p => .ok (.bool (p.isPrefixOf t))
+    | _ => .error .typeError
+  | _ => .error .attributeError
+
+/-! #### codecs -/
+
+/-- `x.decode("ascii")`: a byte above 0x7F is a UnicodeDecodeError (a ValueError) -/
+def decodeAscii : V → Py V
+  | .bytes b => if b.all (· < 128) then .ok (.str (b.map (·.toNat))) else .error .valueError
+  | _ => .error .attributeError
+
+/-- `x.decode("ascii", "ignore")`: the bytes above 0x7F are dropped -/
+def decodeAsciiIgnore : V → Py V
+  | .bytes b => .ok (.str ((b.filter (· < 128)).map (·.toNat)))
+  | _ => .error .attributeError
+
+/-- UTF-8 of one code point; a surrogate (or a number that is not a code point) is a UnicodeEncodeError (a ValueError) -/
+def utf8Enc1 (c : Nat) : Py Bytes :=
+  if c < 0x80 then .ok [UInt8.ofNat c]
+  else if c < 0x800 then .ok [UInt8.ofNat (0xC0 + c / 64), UInt8.ofNat (0x80 + c % 64)]
+  else if 0xD800 ≤ c ∧ c ≤ 0xDFFF then .error .valueError
+  else if c < 0x10000 then .ok [UInt8.ofNat (0xE0 + c / 4096), UInt8.ofNat (0x80 + c / 64 % 64), UInt8.ofNat (0x80 + c % 64)]
+  else if c < 0x110000 then
+    .ok [UInt8.ofNat (0xF0 + c / 262144), UInt8.ofNat (0x80 + c / 4096 % 64), UInt8.ofNat (0x80 + c / 64 % 64), UInt8.ofNat (0x80 + c % 64)]
+  else .error .valueError
+
+def utf8Enc : Str → Py Bytes
+  | [] => .ok []
+  | c :: cs =>
+    match utf8Enc1 c with
+    | .error e => .error e
+    | .ok a => (utf8Enc cs).map (a ++ ·)
+
+/-- `x.encode()` / `x.encode("utf-8")` -/
+def encodeUtf8 : V → Py V
+  | .str t => (utf8Enc t).map .bytes
+  | _ => .error .attributeError
+
+/-- `x.encode("latin-1")`: a code point above U+00FF is a UnicodeEncodeError (a ValueError) -/
+def encodeLatin1 : V → Py V
+  | .str t => if t.all (· < 256) then .ok (.bytes (t.map UInt8.ofNat)) else .error .valueError
+  | _ => .error .attributeError
+
+/-- `x.encode("ascii")` -/
+def encodeAscii : V → Py V
+  | .str t => if t.all (· < 128) then .ok (.bytes (t.map UInt8.ofNat)) else .error .valueError
+  | _ => .error .attributeError
+
+/-! #### `int(x)` -/
+
+/-- the tables of the running interpreter that `int(str)` depends on (generated: `Gen/C16Unicode.lean`): the code points with
+`str.isspace()`, and the code points with decimal value 0 (each starts a run of the ten digits 0..9) -/
+structure IntTables where
+  spaces : List Nat
+  zeros : List Nat
+
+/-- `Py_UNICODE_TODECIMAL` -/
+def decimalOf (t : IntTables) (c : Nat) : Option Nat :=
+  (t.zeros.find? fun z => z ≤ c && c < z + 10).map (c - ·)
+
+/-- `_PyUnicode_TransformDecimalAndSpaceToASCII`, per code point: below 127 unchanged, Unicode spaces become `' '`, Unicode
+decimal digits their ASCII digit, anything else `'?'` -/
+def toAsciiDigitSpace (t : IntTables) (c : Nat) : Nat :=
+  if c < 127 then c
+  else if t.spaces.contains c then 32
+  else match decimalOf t c with
+    | some d => 48 + d
+    | none => 63
+
+def isDigitN (c : Nat) : Bool := 48 ≤ c && c ≤ 57
+def isDigitOrUnderscoreN (c : Nat) : Bool := isDigitN c || c == 95
+
+def hasDoubleUnderscore : List Nat → Bool
+  | 95 :: 95 :: _ => true
+  | _ :: rest => hasDoubleUnderscore rest
+  | [] => false
+
+/-- `sys.get_int_max_str_digits()` (default) -/
+def maxStrDigits : Nat := 4300
+
+def decimalValueN (ds : List Nat) : Nat := ds.foldl (fun a d => a * 10 + (d - 48)) 0
+
+/-- `PyLong_FromString(s, base=10)` after the leading whitespace and the sign: digits with single underscores strictly
+between digits, at most `maxStrDigits` digits, then whitespace only -/
+def parseDecimalBody (neg : Bool) (s2 : List Nat) : Py Int :=
+  let run := s2.takeWhile isDigitOrUnderscoreN
+  let rest := s2.dropWhile isDigitOrUnderscoreN
+  let ds := run.filter (· != 95)
+  if run.head? == some 95 || run.getLast? == some 95 || hasDoubleUnderscore run then .error .valueError
+  else if ds.isEmpty || ds.length > maxStrDigits then .error .valueError
+  else if !(rest.dropWhile isSpace).isEmpty then .error .valueError
+  else .ok (if neg then -(decimalValueN ds : Int) else (decimalValueN ds : Int))
+
+def parseDecimal (s : List Nat) : Py Int :=
+  let s1 := s.dropWhile isSpace
+  parseDecimalBody (s1.head? == some 45)
+    (if s1.head? == some 43 || s1.head? == some 45 then s1.drop 1 else s1)
+
+/-- `int(x)` with one argument: an int-like object gives its value, a `str` is a decimal literal (surrounding whitespace, sign,
+single underscores between digits, any Unicode decimal digits; at most 4300 digits), `bytes` are read as an ASCII literal;
+a malformed literal is a ValueError, any other kind of object a TypeError -/
+def intOf (t : IntTables) : V → Py V
+  | .bool b => .ok (.int (if b then 1 else 0))
+  | .int n => .ok (.int n)
+  | .enum _ v => .ok (.int v)
+  | .str cs => (parseDecimal (cs.map (toAsciiDigitSpace t))).map .int
+  | .bytes b => (parseDecimal (b.map (·.toNat))).map .int
+  | _ => .error .typeError
+
+/-! #### `repr` -/
+
+def hexDigit (n : Nat) : Nat := if n < 10 then 48 + n else 87 + n
+
+/-- one byte / ASCII code point inside a `bytes` / `str` literal delimited by the quote `q` -/
+def reprByte (q b : Nat) : Str :=
+  if b == 92 then [92, 92]
+  else if b == q then [92, q]
+  else if b == 9 then [92, 116]
+  else if b == 10 then [92, 110]
+  else if b == 13 then [92, 114]
+  else if b < 32 || b == 127 then [92, 120, hexDigit (b / 16), hexDigit (b % 16)]
+  else [b]
+
+/-- single quotes unless the text contains `'` and no `"` -/
+def reprQuote (l : List Nat) : Nat := if l.contains 39 && !l.contains 34 then 34 else 39
+
+/-- `repr(b)` of `bytes` -/
+def reprBytes (b : Bytes) : Str :=
+  let l := b.map (·.toNat)
+  let q := reprQuote l
+  98 :: q :: l.flatMap (fun x => if x ≥ 128 then [92, 120, hexDigit (x / 16), hexDigit (x % 16)] else reprByte q x) ++ [q]
+
+/-- `repr(s)` of a `str`, exact for code points up to U+007F -/
+def reprStr (t : Str) : Str :=
+  let q := reprQuote t
+  q :: t.flatMap (fun x => if x ≥ 128 then [x] else reprByte q x) ++ [q]
+
+mutual
+/-- `repr(x)` for `None`, `bool`, `int`, `bytes`, `str` and lists / tuples of these.  Not modelled exactly: a code point above
+U+007F of a `str` is kept as it is (CPython escapes the non-printable ones).  Not modelled (TypeError): dict, BytesIO,
+enum members, instances. -/
+def repr : V → Py Str
+  | .none => .ok (cps "None")
+  | .bool b => .ok (cps (if b then "True" else "False"))
+  | .int n => .ok (decStr n)
+  | .bytes b => .ok (reprBytes b)
+  | .str t => .ok (reprStr t)
+  | .list xs =>
+    match reprL xs with
+    | .ok r => .ok (91 :: r ++ [93])
+    | .error e => .error e
+  | .tuple xs =>
+    match reprL xs with
+    | .ok r => .ok (if xs.length == 1 then 40 :: r ++ [44, 41] else 40 :: r ++ [41])
+    | .error e => .error e
+  | _ => .error .typeError
+termination_by structural x => x
+def reprL : List V → Py Str
+  | [] => .ok []
+  | x :: xs =>
+    match repr x, reprL xs with
+    | .ok a, .ok b => .ok (if xs.isEmpty then a else a ++ [44, 32] ++ b)
+    | .error e, _ => .error e
+    | _, .error e => .error e
+termination_by structural x => x
+end
+
+/-- a replacement field of an f-string / `str.format`: `{v!r}` is `repr(v)`; `{v}` is `format(v, "")`, which for a list / tuple
+/ `bytes` is its `repr`, and `fmt` otherwise -/
+def fmtR (v : V) : Py Str := repr v
+def fmtS (v : V) : Py Str :=
+  match v with
+  | .list _ => repr v
+  | .tuple _ => repr v
+  | .bytes _ => repr v
+  | _ => fmt v ""
+
+/-! #### classes with named fields -/
+
+/-- a class named in `isinstance(x, …)` -/
+inductive Ty
+  | int | bool | bytes | str | list | tuple | dict
+  | cls (c : Cls)
+
+/-- `isinstance(x, T)` for one class: `bool` and cstruct enum members are `int`s, a NamedTuple instance is a `tuple`, an
+instance of a registered class is an instance of its registered base classes -/
+def isInst1 (x : V) : Ty → Bool
+  | .int => match x with | .int _ => true | .bool _ => true | .enum _ _ => true | _ => false
+  | .bool => match x with | .bool _ => true | _ => false
+  | .bytes => match x with | .bytes _ => true | _ => false
+  | .str => match x with | .str _ => true | _ => false
+  | .list => match x with | .list _ => true | _ => false
+  | .tuple => match x with | .tuple _ => true | .inst c _ => c.isTuple | _ => false
+  | .dict => match x with | .dict _ _ => true | _ => false
+  | .cls c => match x with | .inst d _ => d.cid == c.cid || d.bases.contains c.cid | _ => false
+
+/-- `isinstance(x, (T1, T2, …))` -/
+def isInstance (x : V) (tys : List Ty) : Bool := tys.any (isInst1 x)
+
+/-- `x._replace(f1=v1, …)` of a NamedTuple instance: an unknown field name is a ValueError (CPython 3.12); every other kind
+of object here has no `_replace` (AttributeError) -/
+def replace (x : V) (kw : List (String × V)) : Py V :=
+  match x with
+  | .inst c vals =>
+    if c.isTuple then
+      match kw.foldl (fun acc p => acc.bind fun vs => setField p.1 p.2 c.fields vs) (some vals) with
+      | some vs => .ok (.inst c vs)
+      | none => .error .valueError
+    else .error .attributeError
+  | _ => .error .attributeError
 
 end PyU
